@@ -398,6 +398,22 @@ def check_norm(case):
                 out.le(f"quat_frobenius_norm({name}):invariant under ^H", abs(float(rh) - r), 2 * rel * exact)
     if len(vals) == 2:
         out.le("quat_frobenius_norm:dense == sparse", abs(vals["dense"] - vals["sparse"]), 2 * rel * exact)
+    # a norm is asked for, THEN the same object is scaled / conjugate-transposed and asked again (derived objects must
+    # not inherit anything that the operation invalidates); both storage formats
+    for name, mk in (("dense", Q), ("sparse", S)):
+        obj = mk(A)
+        ok0, _ = out.call(f"quat_frobenius_norm({name}) before scaling", u.quat_frobenius_norm, obj)
+        for a in (-2.5, 0.5):
+            okm, T = out.call(f"{name} * {a}", lambda o=obj, a_=a: o * a_)
+            if ok0 and okm:
+                okn, rn = out.call(f"quat_frobenius_norm({name} * {a})", u.quat_frobenius_norm, T)
+                if okn:
+                    out.le(f"quat_frobenius_norm({name}):||a A|| = |a| ||A|| after the norm of A was taken", abs(float(rn) - abs(a) * exact),
+                           2 * rel * abs(a) * exact + 1e-300 * (exact == 0), f"a={a} got {float(rn)!r}")
+                okh2, rh2 = out.call(f"quat_frobenius_norm(({name} * {a})^H)", lambda T_=T: u.quat_frobenius_norm(u.quat_hermitian(T_)))
+                if okh2:
+                    out.le(f"quat_frobenius_norm({name}):||(a A)^H|| = |a| ||A||", abs(float(rh2) - abs(a) * exact),
+                           2 * rel * abs(a) * exact + 1e-300 * (exact == 0), f"a={a} got {float(rh2)!r}")
     # unitary invariance (the unitary factors are harness-built; their own defect is accounted for)
     dl = ref.unitarity_defect(Ul)
     dr = ref.unitarity_defect(Ur)
